@@ -64,7 +64,7 @@ fn pair_strat(_: &Ctx) -> BoxedStrategy<PairCase> {
 }
 
 fn lj(x: f64, y: f64, sigma: f64, epsilon: f64, cutoff: Option<f64>) -> LJ2 {
-    LJ2 { position: Point2::new(x, y), sigma, epsilon, cutoff }
+    crate::statejson::lj2(x, y, sigma, epsilon, cutoff)
 }
 
 fn motion(m: (f64, f64, f64, bool)) -> Transform2 {
@@ -224,10 +224,7 @@ fn mol_strat(_: &Ctx) -> BoxedStrategy<MolCase> {
 }
 
 fn mol_oracle(c: &MolCase, rec: &Rec, ctx: &Ctx) -> Result<(), String> {
-    let mk = |v: &Vec<(f64, f64, f64, f64, Option<f64>)>, dx: f64, dy: f64, like: bool| LJShape2 {
-        name: "m".to_string(),
-        items: v.iter().map(|(x, y, s, e, cut)| if like { lj(x + dx, y + dy, 1.0, 1.0, Some(3.5)) } else { lj(x + dx, y + dy, *s, *e, *cut) }).collect(),
-    };
+    let mk = |v: &Vec<(f64, f64, f64, f64, Option<f64>)>, dx: f64, dy: f64, like: bool| crate::statejson::lj_molecule("m", v.iter().map(|(x, y, s, e, cut)| if like { lj(x + dx, y + dy, 1.0, 1.0, Some(3.5)) } else { lj(x + dx, y + dy, *s, *e, *cut) }).collect());
     let a = mk(&c.a, 0., 0., c.like);
     let b = mk(&c.b, c.shift.0, c.shift.1, c.like);
     let e_ab = a.energy(&b);
